@@ -4,6 +4,8 @@ spec = {"input": [dims], "layers": [{"t": class name, "name": str, "kw": {...}, 
 node -1 is the model input; the output is the last node.
 """
 import collections
+import random
+import zlib
 
 WQ = ["quantized_bits(4,0,1)", "quantized_bits(3,1,1,alpha=1.0)", "ternary", "binary(alpha=1.0)", "quantized_po2(4)",
       "quantized_bits(6,2,1,alpha='auto')"]
@@ -187,6 +189,11 @@ def quantization_dict(spec, rnd):
           e["state_quantizer"] = "quantized_bits(6,2,1)"
         if rnd.random() < 0.2:
           e["activation_quantizer"] = "quantized_tanh(5)"
+        # the gate activation has its own entry (LSTM / GRU only); drawn from a private stream so that the
+        # dictionaries generated before this entry existed stay what they were
+        r2 = random.Random(zlib.crc32(("%s|%s|%s" % (l["name"], key, sorted(e.items()))).encode()))
+        if r2.random() < 0.45:
+          e["recurrent_activation_quantizer"] = r2.choice(["quantized_sigmoid(5)", "quantized_bits(4,0,1)", "quantized_sigmoid(3)"])
       elif cn in ("AveragePooling2D", "GlobalAveragePooling2D"):
         e = {"average_quantizer": "quantized_bits(8,0,1)"}
         if rnd.random() < 0.3:
